@@ -21,8 +21,13 @@ fn identity(name: &str) -> native_tls::Identity {
     native_tls::Identity::from_pkcs8(&cert, &key).expect("identity")
 }
 
-fn root() -> native_tls::Certificate {
-    native_tls::Certificate::from_pem(&std::fs::read(certs_dir().join("ca.cert.pem")).unwrap()).unwrap()
+#[cfg(feature = "backend-native")]
+type Cert = native_tls::Certificate;
+#[cfg(all(feature = "backend-rustls", not(feature = "backend-native")))]
+type Cert = rustls_pki_types::CertificateDer<'static>;
+
+fn root() -> Cert {
+    crate::tlscert::from_pem(&std::fs::read(certs_dir().join("ca.cert.pem")).unwrap()).unwrap()
 }
 
 /// TLS server answering one HTTP request per connection
@@ -195,7 +200,7 @@ pub fn generate(_seed: u64, tier: &str, sink: &mut Sink) {
                                     Err((format!("rejected-valid-{}", mode), format!("chain {} name_ok {} aic {} aih {} root {} via {} set on {}: {}", chain, name_ok, aic, aih, root_added, mode, place, err_kind)))
                                 };
                                 sink.push(Case {
-                                    tags: vec![format!("chain={}", chain), format!("name_ok={}", name_ok), format!("aic={}", aic), format!("aih={}", aih), format!("root={}", root_added), format!("mode={}", mode), format!("set_on={}", place), format!("expect={}", if want { "accept" } else { "reject" })],
+                                    tags: vec![format!("backend={}", crate::tlscert::backend()), format!("chain={}", chain), format!("name_ok={}", name_ok), format!("aic={}", aic), format!("aih={}", aih), format!("root={}", root_added), format!("mode={}", mode), format!("set_on={}", place), format!("expect={}", if want { "accept" } else { "reject" })],
                                     op: format!("tls {} {} {} {} {}", eff_aic as u8, eff_aih as u8, chain_ok as u8, *time_ok as u8, name_ok as u8),
                                     impl_line: if accepted { "accept".into() } else { "reject".into() },
                                     oracle: o,
